@@ -297,6 +297,28 @@ Definition c_read_attrs (st : cstate) : option (list attr) :=
     end
   end.
 
+(* the same listing before ParseAttributeMessage: the attribute MESSAGES (compact: the messages of the header,
+   dense: the heap objects the records address, in index order) *)
+Fixpoint c_read_msgs_recs (f : bytes) (ha : N) (rs : list BT2.rec) : option (list bytes) :=
+  match rs with
+  | [] => Some []
+  | r :: t =>
+    match FHeap.core_read f ha (snd r), c_read_msgs_recs f ha t with
+    | FHeap.Ok d, Some l => Some (d :: l)
+    | _, _ => None
+    end
+  end.
+
+Definition c_read_msgs (st : cstate) : option (list bytes) :=
+  match st with
+  | CCompact attrs => Some (map enc attrs)
+  | CDense bf _ ba hfs ha =>
+    match BT2.load_from OSZ (BT2.new_bt NODE) bf ba with
+    | BT2.LErr _ => None
+    | BT2.LOk bt => c_read_msgs_recs (FHeap.f_bytes hfs) ha (BT2.recs bt)
+    end
+  end.
+
 Definition c_step (st : cstate) (o : op) : cstate * res :=
   match o with OWrite n v => c_write_attr st n v | ODelete n => c_delete_attr st n end.
 
